@@ -966,7 +966,7 @@ func (x *explorer) schedule(s *State) bool {
 			trans = append(trans, t)
 		}
 	}
-	if s.timers {
+	{
 		for id := 1; id < len(s.heap); id++ {
 			o := s.heap[id]
 			if o != nil && o.ctx != nil && o.ctx.armed && !o.ctx.isDone {
